@@ -129,6 +129,13 @@ func (w *CliWorld) execRelay(op *Op, cli *turn.Client) bool {
 		if err != nil {
 			Fatalf("build data ind: %v", err)
 		}
+		if hasFlag(op, "stranger") && !w.stream {
+			// not from the server: a third party that knows the client's address sends it a Data
+			// indication naming a peer. The server relayed nothing: ReadFrom returns nothing
+			w.K.Stats.Probe("stranger_indication")
+			w.Net.SendUDP(mustUDPAddr("10.0.3.9:7777"), w.cliAddr, m.Raw)
+			return true
+		}
 		w.mu.Lock()
 		w.injected = append(w.injected, injRec{T: w.K.Now(), Peer: ustr(peer), Data: payload, Known: true, Sure: true})
 		w.mu.Unlock()
